@@ -1,3 +1,3 @@
 SPECIFICATION Spec
-CONSTANTS Lines <- Id7  Prog <- ProgLoopSub  BpSets <- Bps2  MaxReq = 2  Deviations <- RaceDev  Fuel = 40
+CONSTANTS LibLines <- NoLib  Lines <- Id7  Prog <- ProgLoopSub  BpSets <- Bps2  MaxReq = 2  Deviations <- RaceDev  Fuel = 40
 INVARIANT StoppedIsHalted
